@@ -1,5 +1,5 @@
 """C12 — random code has the requested size and allowed leaves."""
-import random
+import math, random
 import vcheck
 from vcheck import Stream, sx_str
 from gen.stategen import state, S
@@ -18,6 +18,48 @@ ASSUMPTIONS = [
 ]
 PROBS = [0.0, 0.001, 0.5, 1.0]
 STEPS = 20
+
+# Float leaves seen by valid_gen, per stream: a defect that moves one float leaf in 1/RARE out of [0,1) is missed by
+# a run over n float leaves with probability (1 - 1/RARE)^n; the volume stream is sized so that this is < 1e-9.
+RARE = 2000
+MISS = 1e-9
+NEED_FLOAT_LEAVES = int(math.ceil(math.log(MISS) / math.log(1.0 - 1.0 / RARE)))      # 41437
+FLOAT_LEAVES = {}
+
+
+def count_floats(v):
+    """float leaves (6 bits) of an item on the wire; items: (0 children..) list, (tag payload) leaf"""
+    n, todo = 0, [v]
+    while todo:
+        x = todo.pop()
+        if isinstance(x, list) and x and isinstance(x[0], int):
+            if x[0] == 0:
+                todo.extend(x[1:])
+            elif x[0] == 6:
+                n += 1
+    return n
+
+
+def counting_project(name):
+    """`project` of gen/randgen.py which also counts the float leaves of the programs the implementation drew
+    (ops 2, 3, 11: draws are (item ok) / ((item) ok) / (() ok))"""
+    def f(r):
+        try:
+            v = vcheck.sx_parse(r)
+        except Exception:
+            return r
+        if isinstance(v, list) and len(v) == 2 and v[0] == 0 and isinstance(v[1], list) and len(v[1]) == 2:
+            k = 0
+            for d in v[1][1]:
+                if isinstance(d, list) and len(d) == 2 and isinstance(d[0], list):
+                    it = d[0]
+                    if it and isinstance(it[0], list):
+                        it = it[0]             # ((item) ok)
+                    k += count_floats(it)
+            FLOAT_LEAVES[name] = FLOAT_LEAVES.get(name, 0) + k
+            return sx_str([0, [v[1][0], []]])
+        return r
+    return f
 
 
 def combos(names):
@@ -57,7 +99,21 @@ def streams(seed, tier):
                 st = state(bind=BINDS[nb], cfg=cfg(pnew=pn))
                 cases.append(case(n % 2, 2, n_draws, [st, [S("INTEGER.+")], n, STEPS, [S(d) for d in EXEC_DENY]], tape(rng)))
     out.append(Stream("exact-size", "rand", "rand.check", cases,
-                      "random_code_with_size for sizes 1..80 x instruction list {empty, one, full registry} x bindings {0,1,5} x new-name probability {0,.001,.5,1} (quick: 4 of the 36 combinations per size, rotating) plus probabilities outside [0,1], infinite and NaN: valid_gen on every draw; every program printed, parsed back and executed", project=project))
+                      "random_code_with_size for sizes 1..80 x instruction list {empty, one, full registry} x bindings {0,1,5} x new-name probability {0,.001,.5,1} (quick: 4 of the 36 combinations per size, rotating) plus probabilities outside [0,1], infinite and NaN: valid_gen on every draw; every program printed, parsed back and executed", project=counting_project("exact-size")))
+    # float-leaf volume: many small programs over the empty instruction list (an Instruction leaf is NOOP, a Name leaf a
+    # bound name), generated and validated only (steps = -1: not executed)
+    per_case = {"quick": 16000, "thorough": 32000, "search": 4000}[tier]
+    cases = []
+    for j, n in enumerate([1] * 16 + [2, 3, 4, 5, 6, 8, 10, 13] * 4 + [20, 30] * 4):
+        st = state(bind=BINDS[(0, 1, 5)[j % 3]], cfg=cfg(pnew=PROBS[j % 4]))
+        cases.append(case(j % 2, 2, max(200, per_case // n), [st, [], n, -1, []], tape(rng)))
+    st = Stream("float-leaf-volume", "rand", "rand.check", cases,
+                "random_code_with_size for sizes 1..30 over the EMPTY instruction list, about %d points per case, %d cases, validated by valid_gen and not executed: "
+                "volume for the leaf ranges (float in [0,1)): at least %d float leaves are needed to miss a 1-in-%d leaf defect with probability < %g; "
+                "the number actually checked is recorded as float_leaves_checked" % (per_case, len(cases), NEED_FLOAT_LEAVES, RARE, MISS),
+                project=counting_project("float-leaf-volume"))
+    st.per_shard = 4
+    out.append(st)
     # upper bound
     cases, k = [], 0
     for m in range(0, 81):
@@ -67,7 +123,7 @@ def streams(seed, tier):
             cases.append(case((m + j) % 2, 3, n_draws, [st, lst, m, STEPS, [S(d) for d in EXEC_DENY]], tape(rng)))
         k += per_size
     out.append(Stream("upper-bound", "rand", "rand.check", cases,
-                      "random_code for bounds 0..80 over the same grid: None for 0 and 1, otherwise 1 <= size <= bound-1 and valid_gen", project=project))
+                      "random_code for bounds 0..80 over the same grid: None for 0 and 1, otherwise 1 <= size <= bound-1 and valid_gen", project=counting_project("upper-bound")))
     # CODE.RAND
     cases = []
     limits = [0, 1, -1, 2, -2, 3, 5, -7, 24, 25, 26, 100, -100, MAX32, MIN32, MIN32 + 1]
@@ -82,8 +138,24 @@ def streams(seed, tier):
                 cases.append(case(rng.randrange(2), 11, n_draws, [st, lst, S("CODE.RAND"), STEPS, [S(d) for d in EXEC_DENY], 0], tape(rng)))
     cases.append(case(0, 11, 3, [state(), names, S("CODE.RAND"), STEPS, [], 0], tape(rng)))
     out.append(Stream("CODE.RAND", "rand", "rand.check", cases,
-                      "CODE.RAND with limits incl. 0, +-1, i32::MIN/MAX x max-points incl. 0, 1, negative, i32::MIN: size <= min(|n|,|maxpts|) - 1, nothing for limits <= 1, operand consumed; empty INTEGER stack", project=project))
+                      "CODE.RAND with limits incl. 0, +-1, i32::MIN/MAX x max-points incl. 0, 1, negative, i32::MIN: size <= min(|n|,|maxpts|) - 1, nothing for limits <= 1, operand consumed; empty INTEGER stack", project=counting_project("CODE.RAND")))
     return out
+
+
+def extra(ctx):
+    """records the measured number of float leaves that went through valid_gen (leaf_ok: float in [0,1))"""
+    total = 0
+    for name, k in FLOAT_LEAVES.items():
+        if name in ctx.stats:
+            ctx.stats[name]["float_leaves_checked"] = k
+        total += k
+    ctx.stats["float-leaf-count"] = {
+        "cases": 0, "float_leaves_checked": total, "needed_for_miss_below_%g_at_1_in_%d" % (MISS, RARE): NEED_FLOAT_LEAVES,
+        "p_miss_1_in_%d" % RARE: float("%.3g" % ((1.0 - 1.0 / RARE) ** total)), "enough": total >= NEED_FLOAT_LEAVES,
+        "note": "float leaves of all generated programs of this run on which valid_gen (leaf_ok: 0 <= x < 1) was evaluated; "
+                "P(miss) = (1 - 1/%d)^n for a defect that affects one float leaf in %d" % (RARE, RARE)}
+    print("C12 float leaves checked: %d (needed %d for P(miss) < %g at 1 in %d; P(miss) = %.3g)"
+          % (total, NEED_FLOAT_LEAVES, MISS, RARE, (1.0 - 1.0 / RARE) ** total))
 
 
 TECHNIQUE = "Coq proof over an explicit randomness oracle (tape): strong induction on the requested size, soundness AND completeness of the decidable characterisation valid_gen; membership correspondence (the real generators run N times per grid point, valid_gen evaluated on every produced program, RNG-independent part diffed), every produced program printed/parsed/executed on the real interpreter"
